@@ -1,20 +1,28 @@
 /-
 C01 — Resonance search: best vigilance-passing category wins, else one new category.
-Property theorems only; helper lemmas live in ArtProofs.
+
+Property theorems only; helper lemmas live in ArtProofs.  Everything here holds
+for every linear order `α` of activations, every match-value type `μ`, every
+threshold type `θ` (a number for a bare module, a per-channel vector for
+FusionART), every configuration `cfg` (mode × epsilon: which comparison,
+how a vetoed match moves the threshold, abandon or not, MT~), every activation
+list `T` (with NaNs), match function `M` and veto pattern.
 -/
-import ArtProofs.Search
+import ArtProofs.Fit
 
 namespace Art.C01
 
-variable {α μ θ : Type} [LinearOrder α]
+variable {X Wt α μ θ : Type} [LinearOrder α]
 
-/-- The loop terminates: any fuel ≥ the number of live candidates gives the same result. -/
+/-- The loop terminates: any fuel ≥ the number of live candidates gives the same
+result (each iteration strikes one candidate).  `stepSearch` uses `T.length`. -/
 theorem search_terminates (cfg : SearchCfg μ θ) (M : Nat → μ) (veto : Nat → Bool)
     (f₁ f₂ : Nat) (T : List (Option α)) (th : θ) (h₁ : liveCount T ≤ f₁) (h₂ : liveCount T ≤ f₂) :
     search cfg M veto f₁ T th = search cfg M veto f₂ T th :=
   search_fuel_irrelevant cfg M veto f₁ f₂ T th h₁ h₂
 
-/-- A winner is a live candidate that passed the threshold in force at its visit and was not vetoed. -/
+/-- A winner is a live candidate that passed the threshold in force at its visit
+and was not vetoed; it is the last category visited. -/
 theorem winner_sound (cfg : SearchCfg μ θ) (M : Nat → μ) (veto : Nat → Bool)
     (T : List (Option α)) (th : θ) (c : Nat)
     (h : (search cfg M veto T.length T th).winner = some c) :
@@ -23,11 +31,112 @@ theorem winner_sound (cfg : SearchCfg μ θ) (M : Nat → μ) (veto : Nat → Bo
       cfg.passes th' (M c) = true ∧ (cfg.tilde || !veto c) = true :=
   search_winner_sound cfg M veto T.length T th (liveCount_le_length T) c h
 
+/-- Categories are visited by decreasing activation, ties to the oldest; only
+live candidates are visited, each at most once. -/
+theorem visiting_order (cfg : SearchCfg μ θ) (M : Nat → μ) (veto : Nat → Bool)
+    (T : List (Option α)) (th : θ) :
+    ((search cfg M veto T.length T th).visits.map (·.c)).Pairwise (Before T) ∧
+    ∀ v ∈ (search cfg M veto T.length T th).visits, ∃ a, T[v.c]? = some (some a) :=
+  search_visit_order cfg M veto T.length T th (liveCount_le_length T)
+
+/-- Maximality: every category visited before the winner (all visited ones, if
+there is no winner) failed the vigilance test in force at its visit or was
+vetoed; the recorded bits are exactly the test results. -/
+theorem winner_maximal (cfg : SearchCfg μ θ) (M : Nat → μ) (veto : Nat → Bool)
+    (T : List (Option α)) (th : θ) :
+    ∀ v ∈ (search cfg M veto T.length T th).visits,
+      v.m = cfg.passes v.th (M v.c) ∧ v.ok = (cfg.tilde || !veto v.c) ∧
+      ((v.m && v.ok) = true → (search cfg M veto T.length T th).winner = some v.c) :=
+  search_visits_faithful cfg M veto T.length T th (liveCount_le_length T)
+
+/-- A new category is created only after every live candidate was visited and
+rejected — unless the mode abandons the search (MT1). -/
+theorem new_only_if_exhausted (cfg : SearchCfg μ θ) (hkeep : cfg.keep = true) (M : Nat → μ)
+    (veto : Nat → Bool) (T : List (Option α)) (th : θ)
+    (hnone : (search cfg M veto T.length T th).winner = none) :
+    ∀ c a, T[c]? = some (some a) → c ∈ (search cfg M veto T.length T th).visits.map (·.c) :=
+  search_exhaustive cfg M veto hkeep T.length T th (liveCount_le_length T) hnone
+
+/-- Threshold trace: the first visit sees the configured threshold; it changes
+only after a visit that *passed and was vetoed*, and then to exactly
+`cfg.track th (M c)` (MT+: M+eps, MT-: M-eps, MT0: M, MT~: unchanged). -/
+theorem threshold_trace (cfg : SearchCfg μ θ) (M : Nat → μ) (veto : Nat → Bool)
+    (T : List (Option α)) (th : θ) :
+    ThreadsFrom cfg M th (search cfg M veto T.length T th).visits
+      (search cfg M veto T.length T th).th :=
+  search_threshold_trace cfg M veto T.length T th (liveCount_le_length T)
+
+/-- The five scalar modes do what the statement says. -/
+theorem modes_table (adjP adjM : α → α) (top rho m : α) :
+    (scalarCfg .plus false adjP adjM top).track rho m = adjP m ∧
+    (scalarCfg .minus false adjP adjM top).track rho m = adjM m ∧
+    (scalarCfg .zero false adjP adjM top).track rho m = m ∧
+    (scalarCfg .tilde false adjP adjM top).track rho m = rho ∧
+    (scalarCfg (α := α) .one false adjP adjM top).keep = false ∧
+    (scalarCfg (α := α) .tilde false adjP adjM top).tilde = true ∧
+    ((scalarCfg .plus false adjP adjM top).passes rho m = true ↔ rho ≤ m) ∧
+    ((scalarCfg .minus false adjP adjM top).passes rho m = true ↔ rho ≤ m) ∧
+    ((scalarCfg .one false adjP adjM top).passes rho m = true ↔ rho ≤ m) ∧
+    ((scalarCfg .zero false adjP adjM top).passes rho m = true ↔ rho < m) ∧
+    ((scalarCfg .tilde false adjP adjM top).passes rho m = true ↔ rho < m) := by
+  simp [scalarCfg, trackScalar, passesScalar, mtStrict]
+
 /-- Without a reset function: the winner is exactly the first index of maximal
 activation among the vigilance-passing candidates; a new category iff none. -/
 theorem no_reset_best_passing_wins (cfg : SearchCfg μ θ) (M : Nat → μ)
     (T : List (Option α)) (th : θ) :
     (search cfg M (fun _ => false) T.length T th).winner = nanargmax (qualifying cfg M th T) :=
   search_no_veto cfg M T.length T th (liveCount_le_length T)
+
+/-- In every mode (MT~ included) the category a training step resonates with was
+not vetoed by the reset function and indexes an existing category. -/
+theorem step_winner_allowed (K : Kernel X Wt α μ) (cfg : SearchCfg μ θ) (th0 : θ)
+    (veto : Nat → Bool) (W : List Wt) (x : X) (c : Nat)
+    (h : (stepSearch K cfg th0 veto W x).winner = some c) : veto c = false ∧ c < W.length :=
+  ⟨stepSearch_winner_not_vetoed K cfg th0 veto W x c h, stepSearch_winner_lt K cfg th0 veto W x c h⟩
+
+/-- Frame: a training step rewrites exactly the winner's weight (with `update`)
+or appends exactly one category initialised from the sample (`newW x`); no other
+weight and no other counter changes. -/
+theorem step_frame (K : Kernel X Wt α μ) (cfg : SearchCfg μ θ) (th0 : θ)
+    (veto : Nat → Bool) (s : ArtState Wt) (x : X) :
+    (stepFit K cfg th0 veto s x).1.n = s.n + 1 ∧
+    (stepFit K cfg th0 veto s x).1.labels = s.labels ∧
+    (((stepFit K cfg th0 veto s x).2 < s.W.length ∧
+        ∃ w, s.W[(stepFit K cfg th0 veto s x).2]? = some w ∧
+        (stepFit K cfg th0 veto s x).1.W = s.W.set (stepFit K cfg th0 veto s x).2 (K.update x w) ∧
+        (stepFit K cfg th0 veto s x).1.cnt =
+          s.cnt.set (stepFit K cfg th0 veto s x).2 (s.cnt.getD (stepFit K cfg th0 veto s x).2 0 + 1)) ∨
+     ((stepFit K cfg th0 veto s x).2 = s.W.length ∧
+        (stepFit K cfg th0 veto s x).1.W = s.W ++ [K.newW x] ∧
+        (stepFit K cfg th0 veto s x).1.cnt = s.cnt ++ [1])) :=
+  stepFit_frame K cfg th0 veto s x
+
+/-! ### Non-vacuity: concrete searches over `Int` with ties, threshold equality,
+vetoes under each mode, and exhaustion. -/
+
+private def cfgI (mode : MT) : SearchCfg Int Int := scalarCfg mode false (· + 1) (· - 1) 1000
+
+-- exact tie between categories 0 and 2 (activation 7): the oldest wins; match = threshold passes (≥)
+example : (search (cfgI .plus) (fun _ => 5) (fun _ => false) 3 [some 7, some 3, some 7] 5).winner = some 0 := by
+  decide
+-- MT0 uses a strict test: match = threshold fails everywhere, new category
+example : (search (cfgI .zero) (fun _ => 5) (fun _ => false) 3 [some 7, some 3, some 7] 5).winner = none := by
+  decide
+-- MT+: best (cat 0, match 6) vetoed -> threshold 7; cat 2 (match 6) now fails; cat 1 (match 9) wins
+example : (search (cfgI .plus) (fun c => if c = 1 then 9 else 6) (fun c => c == 0) 3
+    [some 7, some 3, some 5] 5).winner = some 1 := by decide
+-- MT-: same veto lowers the threshold to 5: cat 2 (match 6) wins
+example : (search (cfgI .minus) (fun c => if c = 1 then 9 else 6) (fun c => c == 0) 3
+    [some 7, some 3, some 5] 5).winner = some 2 := by decide
+-- MT1: abandon after the first vetoed match
+example : (search (cfgI .one) (fun c => if c = 1 then 9 else 6) (fun c => c == 0) 3
+    [some 7, some 3, some 5] 5).winner = none := by decide
+-- MT~: the vetoed category was struck before the loop, threshold never moves
+example : (search (cfgI .tilde) (fun c => if c = 1 then 9 else 6) (fun c => c == 0) 3
+    (strikeVetoed true (fun c => c == 0) [some 7, some 3, some 5]) 5).winner = some 2 := by decide
+-- NaN activation is never a candidate
+example : (search (cfgI .plus) (fun _ => 9) (fun _ => false) 2 [none, some 1] 5).winner = some 1 := by
+  decide
 
 end Art.C01
